@@ -50,6 +50,12 @@ type c19subop struct {
 	result   bool
 }
 
+type c19unsub struct {
+	c, topic string
+	seq      uint64
+	at       time.Duration
+}
+
 func scenC19(r *Run) {
 	level := []string{"poll", "poll", "prosumer"}[r.Index%3]
 	if v, ok := r.Opt["level"]; ok {
@@ -108,13 +114,16 @@ func scenC19(r *Run) {
 	broker := push.NewBroker(service)
 	broker.Timeout = timeout
 	broker.HeartBeat = heartbeat
+	var unsubEvents []c19unsub
 	dropped := map[string][]int{}    // "c|t" -> messages handed to OnUnsubscribe
 	unsubAt := map[string][]uint64{} // "c|t" -> event numbers at which the broker removed the subscription
 	broker.OnUnsubscribe = func(ctx context.Context, id string, topic string, messages []push.Message) {
 		for _, m := range messages {
 			dropped[id+"|"+topic] = append(dropped[id+"|"+topic], toInt(m.Data))
 		}
-		unsubAt[id+"|"+topic] = append(unsubAt[id+"|"+topic], sim.Event("unsubscribed", id, topic, len(messages)))
+		seq := sim.Event("unsubscribed", id, topic, len(messages))
+		unsubAt[id+"|"+topic] = append(unsubAt[id+"|"+topic], seq)
+		unsubEvents = append(unsubEvents, c19unsub{id, topic, seq, sim.Now()})
 	}
 	// every poll ('<') as the broker sees it, for both levels
 	var bpolls []*c19poll
@@ -424,6 +433,32 @@ func scenC19(r *Run) {
 		sim.Drive(func() bool { return sim.Now() > tEnd })
 		if sim.Failure() != nil {
 			return
+		}
+	}
+
+	// ---- a subscriber that keeps polling is not dropped: a subscription the broker removed on its own (no
+	// unsubscribe call of that client in progress) can only be a heartbeat expiry, and the heartbeat only runs
+	// between a poll's answer and the next poll - never while a poll of that client is waiting at the broker
+	// (only in runs without stalls: a task stalled for longer than the heartbeat between the broker's answer and the
+	// client's next poll is a client that was silent for that long)
+	for _, u := range unsubEvents {
+		if sim.StallTotal() > 0 {
+			break
+		}
+		own := false
+		for _, op := range subops {
+			if !op.sub && op.c == u.c && op.topic == u.topic && op.inv < u.seq && (op.ret == 0 || op.ret > u.seq) {
+				own = true
+			}
+		}
+		if own {
+			continue
+		}
+		for _, p := range bpolls {
+			if p.c == u.c && p.inv < u.seq && (p.ret == 0 || p.ret > u.seq) && u.at-p.t0 > 0 {
+				r.Fail("C19:subscriber-dropped-while-polling:"+level, "the broker removed client %s's subscription to %s at t=%v (event %d) although no unsubscribe call of that client was in progress and its poll (event %d, since t=%v) was waiting at the broker: heartbeat %v, poll time-out %v", u.c, u.topic, u.at, u.seq, p.inv, p.t0, heartbeat, timeout)
+				return
+			}
 		}
 	}
 
